@@ -97,6 +97,23 @@ inductive WatchPc where
   | returned
   deriving DecidableEq, Repr
 
+/-- the keep-alive goroutine (EnquireLink): send a keep-alive, on failure stop the ticker and Close, then wait for the
+connection context or the next tick -/
+inductive KaPc where
+  | off
+  /-- about to send the next keep-alive -/
+  | idle
+  /-- inside Submit(enquire_link) as call i -/
+  | submitting (i : Nat)
+  /-- the keep-alive failed: ticker stopped, about to call Close -/
+  | failed
+  /-- inside Close as call j -/
+  | closing (j : Nat)
+  /-- `select { case <-c.ctx.Done(): return; case <-ticker.C: }` -/
+  | select
+  | returned
+  deriving DecidableEq, Repr
+
 inductive Transport where
   | open | eof | err
   deriving DecidableEq, Repr
@@ -123,6 +140,8 @@ structure State where
   /-- parent.Close() was called / writes fail -/
   writeBroken : Bool := false
   panicked : Bool := false
+  ka : KaPc := .off
+  tickerStopped : Bool := false
 
 inductive Label where
   -- caller i
@@ -131,14 +150,17 @@ inductive Label where
   | closeTransport (i : Nat) | closeCancel (i : Nat)
   -- Watch
   | wPoll | wRead | wLookup | wDeliver | wOffer | wOfferCancel | wNack | wExit
+  -- keep-alive goroutine
+  | kaStart | kaSend (i : Nat) | kaSubmitDone | kaClose (j : Nat) | kaCloseDone | kaExit
   -- environment
+  | kaTick
   | peerAnswer (i : Nat) | peerUnsol (seq : Int) (k : Nat) | peerBad (seq : Int) (k : Nat) | peerFatal
   | transportEOF | transportErr | cancelParent | deadline (i : Nat) | setDrain (b : Bool) | breakWrites
   deriving DecidableEq, Repr
 
 def Label.isEnv : Label → Bool
   | .peerAnswer _ | .peerUnsol _ _ | .peerBad _ _ | .peerFatal | .transportEOF | .transportErr
-  | .cancelParent | .deadline _ | .setDrain _ | .breakWrites => true
+  | .cancelParent | .deadline _ | .setDrain _ | .breakWrites | .kaTick => true
   | _ => false
 
 def upd {α} (f : Nat → α) (i : Nat) (v : α) : Nat → α := fun j => if j = i then v else f j
@@ -257,6 +279,26 @@ def step (s : State) : Label → Option State
       some (if s.queueClosed then { s with panicked := true, watch := .returned, connDone := true }
             else { s with queueClosed := true, watch := .returned, connDone := true })
     else none
+  | .kaStart => if s.ka = .off then some { s with ka := .idle } else none
+  | .kaSend i =>
+    -- the keep-alive is call i of the table: a Submit that has not started yet
+    if s.ka = .idle ∧ (s.callers i).pc = .idle ∧ (s.callers i).kind = .submit then some { s with ka := .submitting i } else none
+  | .kaSubmitDone =>
+    match s.ka with
+    | .submitting i =>
+      (match (s.callers i).pc with
+       | .done (.resp _) => some { s with ka := .select }
+       | .done _ => some { s with ka := .failed, tickerStopped := true }
+       | _ => none)
+    | _ => none
+  | .kaClose j =>
+    if s.ka = .failed ∧ (s.callers j).pc = .idle ∧ (s.callers j).kind = .close then some { s with ka := .closing j } else none
+  | .kaCloseDone =>
+    match s.ka with
+    | .closing j => if (s.callers j).pc.isDone then some { s with ka := .select } else none
+    | _ => none
+  | .kaExit => if s.ka = .select ∧ s.connDone then some { s with ka := .returned } else none
+  | .kaTick => if s.ka = .select ∧ s.tickerStopped = false then some { s with ka := .idle } else none
   | .peerAnswer i =>
     let c := s.callers i
     if (OutFrame.req i c.seq) ∈ s.wire ∧ c.answered = false then
